@@ -33,7 +33,8 @@ type world struct {
 	obs      []sx.V
 	events   []sx.V
 	tagset   map[string]bool
-	wcap     int // pressure histories: the static size of the outbound buffers (0 = production)
+	wcap     int                      // pressure histories: the static size of the outbound buffers (0 = production)
+	held     map[*stepper.Peer][]byte // second halves of split replies not yet delivered
 }
 
 type worldCfg struct {
@@ -464,10 +465,16 @@ func indexOf(l []string, x string) int {
 	return 0
 }
 
-// answer up to n pending requests of backend p, optionally splitting the bytes into two reads
+// answer up to n pending requests of backend p, optionally splitting the bytes into two reads; the
+// second part is sometimes held back and delivered with the node's next answer, so that other events
+// (requests routed to this node, task rounds, scans) fall between the two halves of one reply
 func (w *world) answer(r *rng.R, p *stepper.Peer, n int) {
 	rs := w.received(p)
-	var out []byte
+	if w.held == nil {
+		w.held = map[*stepper.Peer][]byte{}
+	}
+	out := append([]byte{}, w.held[p]...)
+	delete(w.held, p)
 	for i := 0; i < n && w.answered[p] < len(rs); i++ {
 		out = append(out, w.replyFor(p.Addr, rs[w.answered[p]])...)
 		w.answered[p]++
@@ -478,7 +485,12 @@ func (w *world) answer(r *rng.R, p *stepper.Peer, n int) {
 	if r != nil && r.Chance(20) && len(out) > 2 {
 		cut := r.Range(1, len(out)-1)
 		w.backendData(p, out[:cut])
-		w.backendData(p, out[cut:])
+		if r.Chance(50) {
+			w.held[p] = out[cut:]
+			w.tagset["split-reply-held"] = true
+		} else {
+			w.backendData(p, out[cut:])
+		}
 		w.tagset["split-reply"] = true
 	} else {
 		w.backendData(p, out)
